@@ -264,6 +264,29 @@ def r5_lifecycle(ctx):
     if not n:
         ctx.bad(construct, 'no-leave', 'disconnect no longer leaves rooms',
                 where(f))
+    # the list the leave loop walks is fed: a local that starts as [] and is
+    # iterated by the loop that leaves rooms receives the collected names
+    for lp in walk_own(f.node):
+        if isinstance(lp, ast.For) and isinstance(lp.iter, ast.Name) and any(
+                isinstance(c, ast.Call) and U(c.func).endswith(
+                    'basic_leave_room') for c in ast.walk(lp)):
+            nm = lp.iter.id
+            init_empty = any(
+                isinstance(a, ast.Assign) and U(a.targets[0]) == nm and
+                isinstance(a.value, ast.List) and not a.value.elts
+                for a in walk_own(f.node))
+            fed = any(isinstance(c, ast.Call) and
+                      isinstance(c.func, ast.Attribute) and
+                      c.func.attr in ('append', 'extend', 'add') and
+                      U(c.func.value) == nm for c in walk_own(f.node)) or \
+                any(isinstance(a, (ast.AugAssign,)) and U(a.target) == nm
+                    for a in walk_own(f.node))
+            ctx.check(fed or not init_empty, construct, 'the collected room '
+                      'names reach the loop that leaves them',
+                      key='collect-fed', reason='the leave loop walks `%s`, '
+                      'which starts empty and is never appended to: a '
+                      'disconnecting client leaves no room at all' % nm,
+                      where=where(f, lp))
     # appended names are the iterated room names
     apps = [c for c in walk_own(f.node) if isinstance(c, ast.Call) and
             isinstance(c.func, ast.Attribute) and c.func.attr == 'append' and
